@@ -861,13 +861,14 @@ def descriptor_rule(repo: Repo, rep, P: str):
     rep.ok(f"{P}.R5", "rv/**", f"{n} run-time stores to per-class descriptor objects", "none outside the metaclass")
     # MetaModule mutates only its per-instance UserDefined objects
     mm = repo.cls("MetaModule", module="rv.modules.metamodule")
-    upd = mm.nested["MappingArray"].methods.get("update_user_defined_controllers")
+    from . import c15 as _c15
+    upd = _c15.sync_method(repo)
     s = norm(upd) if upd else ""
     from .. import inline
     from ..packed import single_defs, resolve_names
     verdict = "?"
     if upd is not None:
-        fn = inline.normalize(repo, mm.nested["MappingArray"], upd)
+        fn = upd
         mparam = fn.args.args[0].arg if fn.args.args else "metamodule"
         defs = single_defs(fn)
         sources: Dict[str, str] = {}          # loop target name -> the sequence its values come from
